@@ -277,15 +277,14 @@ Proof. vm_compute. reflexivity. Qed.
 
 Theorem probe_contract : forall b, In b probe_blocks ->
   Forall2 (fun q g => match q with (e1, e2, z) =>
-             (known_probe_raw (l_plat b) (l_meth b) (l_site b) e1 e2 z = false ->
-              gout_in (probe_allowed (l_plat b) (l_meth b) (l_site b) e1 e2 z) g = true)
+             gout_in (probe_allowed (l_plat b) (l_meth b) (l_site b) e1 e2 z) g = true
              /\ gout_ok (Some (probe_outcome (l_plat b) (l_meth b) (l_site b) e1 e2 z)) g = true end)
           (probe_conds (l_plat b)) (l_outs b).
 Proof.
   intros b Hin. pose proof probe_tables_ok as H. apply andb_true_iff in H as [H _].
   pose proof (proj1 (forallb_forall _ _) H b Hin) as Hb. unfold prblock_ok in Hb. apply forallb2_Forall2 in Hb.
   eapply Forall2_imp; [|exact Hb]. cbv beta. intros [[e1 e2] z] g Hq.
-  apply andb_true_iff in Hq as [Ha Hm]. split; [|exact Hm]. intro Hk. rewrite Hk in Ha. exact Ha.
+  apply andb_true_iff in Hq as [Ha Hm]. split; assumption.
 Qed.
 
 Theorem probe_blocks_complete : prblocks_complete ladder_blocks probe_blocks = true.
